@@ -269,3 +269,10 @@ Fixpoint agree (g : graph xval) (sm : sem xval (list bool) nat) (fx : bool) (s :
 Definition check_case (fx : bool) (c : list nspec * list (xop * out xval * bool)) : bool :=
   let g := mk_graph (fst c) in
   wf_b g && agree g xsem fx (init_store g) (snd c).
+
+(** the same with the partial-revert rule as a parameter: [xsem] = [old * mask + cur * ~mask] (state.py before fe0cadd),
+    [xsem_where] = [torch.where(mask, old, cur)] (since fe0cadd).  Both agree on finite values of the mask's length; the
+    harness recognises on every run which one the tree under test has. *)
+Definition check_case_with (sm : sem xval (list bool) nat) (fx : bool) (c : list nspec * list (xop * out xval * bool)) : bool :=
+  let g := mk_graph (fst c) in
+  wf_b g && agree g sm fx (init_store g) (snd c).
